@@ -257,8 +257,40 @@ def K7_branches(rep, flow: Flow):
             rep.ok("K7", 1, nontrivial=c, sample=f"{list(c)} -> {[e[0] for e in rec.log]} (product = block)")
 
 
+def K7_two_qubits(rep, flow: Flow):
+    """the gates of qubit i land on qubit i: all 36 pairs of valid blocks on two qubits"""
+    prog = flow.prog
+    ce = CE(prog)
+    f = prog.func(L2C)
+    valid = [c for c in itertools.product((0, 1), repeat=4) if (c[0] * c[3] - c[1] * c[2]) % 2 == 1]
+    for c0 in valid:
+        for c1 in valid:
+            A = [Mat([[c0[j], 0], [0, c1[j]]], 2) for j in range(4)]
+            try:
+                rec = ce.call_func(f, [A], {})
+            except CERaise as ex:
+                rep.finding("K7", f"pair:{c0}:{c1}", f"find_local_clifford_layer.py local_clifford_layer_to_circuit rejects the valid two-qubit layer ({list(c0)}, {list(c1)}): {ex.etype}")
+                continue
+            bad = None
+            for q, c in ((0, c0), (1, c1)):
+                M = ((1, 0), (0, 1))
+                for ent in rec.log:
+                    if len(ent) != 2 or ent[0] not in GATE_M:
+                        bad = f"unexpected gate {ent}"
+                    elif ent[1] == q:
+                        M = mm(GATE_M[ent[0]], M)
+                    elif ent[1] not in (0, 1):
+                        bad = f"gate on qubit {ent[1]}"
+                if M != ((c[0], c[1]), (c[2], c[3])):
+                    bad = bad or f"the gates on qubit {q} multiply to {M}, its block is {list(c)}"
+            if bad:
+                rep.finding("K7", f"pair:{c0}:{c1}", f"find_local_clifford_layer.py local_clifford_layer_to_circuit: layer ({list(c0)}, {list(c1)}) -> {rec.log}: {bad}")
+            else:
+                rep.ok("K7", 1, nontrivial=(c0, c1), sample=f"({list(c0)},{list(c1)}) -> {rec.log}")
+
+
 def K6_filter(rep, flow: Flow):
-    rep.rule("K6", "validity filter of the layer search: over all 16 coefficient patterns of one qubit, a candidate is accepted exactly when the combination of basis blocks is invertible (a genuine single-qubit Clifford), and the returned block is that combination", floor=16, exhaustive=True)
+    rep.rule("K6", "validity filter of the layer search: over all 16 coefficient patterns of one qubit and all 256 of two qubits, a candidate is accepted exactly when every qubit's combination of basis blocks is invertible (a genuine single-qubit Clifford), and the returned blocks are those combinations at the right diagonal positions", floor=272, exhaustive=True)
     prog = flow.prog
     f = prog.func(FLC)
     ce = CE(prog)
@@ -288,31 +320,33 @@ def K6_filter(rep, flow: Flow):
         raise AnalysisError(f"{FLC}: basis list of four blocks not found")
     cs = [list(m.d) for m in env[basis_name]]
     rep.analysed["K6 basis order (from the function's own literals)"] = cs
-    free = {n.id for n in ast.walk(loop) if isinstance(n, ast.Name) and isinstance(n.ctx, ast.Load)}
-    for coef in itertools.product((0, 1), repeat=4):
-        e = dict(env)
-        e[loop.iter.id] = Mat([list(coef)], 2)
-        e["n"] = 1
-        comb = [sum(coef[k] * cs[k][j] for k in range(4)) % 2 for j in range(4)]
-        det = (comb[0] * comb[3] - comb[1] * comb[2]) % 2
-        try:
-            ce.stmt(loop, e, f)
-            res = None
-        except consteval._Ret as r:
-            res = r.v
-        if res is None:
-            if det == 1:
-                rep.finding("K6", f"coef:{coef}", f"find_local_clifford_layer.py find_local_clifford_layer: coefficient pattern {list(coef)} combines to the invertible block {comb} but is rejected by the validity filter (a valid layer is missed)")
+    for nq in (1, 2):
+        for coef in itertools.product((0, 1), repeat=4 * nq):
+            e = dict(env)
+            e[loop.iter.id] = Mat([list(coef)], 2)
+            e["n"] = nq
+            combs = [[sum(coef[4 * q + k] * cs[k][j] for k in range(4)) % 2 for j in range(4)] for q in range(nq)]
+            dets = [(c[0] * c[3] - c[1] * c[2]) % 2 for c in combs]
+            try:
+                ce.stmt(loop, e, f)
+                res = None
+            except consteval._Ret as r:
+                res = r.v
+            key = f"coef:{nq}:{''.join(map(str, coef))}"
+            if res is None:
+                if all(d == 1 for d in dets):
+                    rep.finding("K6", key, f"find_local_clifford_layer.py find_local_clifford_layer: coefficient pattern {list(coef)} ({nq} qubit(s)) combines to the invertible block(s) {combs} but is rejected by the validity filter (a valid layer is missed)")
+                else:
+                    rep.ok("K6", 1, nontrivial=(nq, coef))
             else:
-                rep.ok("K6", 1, nontrivial=coef)
-        else:
-            block = [res[j].d[0][0] for j in range(4)]
-            if det != 1:
-                rep.finding("K6", f"coef:{coef}", f"find_local_clifford_layer.py find_local_clifford_layer: coefficient pattern {list(coef)} passes the validity filter but combines to the singular block {comb}: the returned layer is not a Clifford")
-            elif block != comb:
-                rep.finding("K6", f"coef:{coef}", f"find_local_clifford_layer.py find_local_clifford_layer: pattern {list(coef)} returns block {block}, the combination of the basis blocks is {comb}")
-            else:
-                rep.ok("K6", 1, nontrivial=coef, sample=f"{list(coef)} -> block {block} (det 1)")
+                blocks = [[res[j].d[q][q] for j in range(4)] for q in range(nq)]
+                off = [res[j].d[a][b] for j in range(4) for a in range(nq) for b in range(nq) if a != b]
+                if not all(d == 1 for d in dets):
+                    rep.finding("K6", key, f"find_local_clifford_layer.py find_local_clifford_layer: coefficient pattern {list(coef)} passes the validity filter but combines to the singular block(s) {combs}: the returned layer is not a Clifford")
+                elif blocks != combs or any(off):
+                    rep.finding("K6", key, f"find_local_clifford_layer.py find_local_clifford_layer: pattern {list(coef)} returns blocks {blocks} (off-diagonal {off}), the combination of the basis blocks is {combs}")
+                else:
+                    rep.ok("K6", 1, nontrivial=(nq, coef), sample=f"{list(coef)} -> blocks {blocks} (det 1)")
 
 
 def K9_enumeration(rep, flow: Flow):
